@@ -6,6 +6,10 @@ func init() {
 	const txs = "internal/storage/ledgerstore/transactions.go"
 	const bal = "internal/storage/ledgerstore/balances.go"
 	addMutants(
+		Mutant{Property: "C04", Name: "inmemory-balance-else-if", File: "internal/storage/inmemory.go",
+			Old: "\t\t\t}\n\t\t\tif posting.Destination == address {", New: "\t\t\t} else if posting.Destination == address {", Expect: "R04f:"},
+		Mutant{Property: "C04", Name: "inmemory-balance-destination-first", File: "internal/storage/inmemory.go",
+			Old: "\t\t\tif posting.Source == address {\n\t\t\t\tbalance = balance.Sub(balance, posting.Amount)\n\t\t\t}\n\t\t\tif posting.Destination == address {\n\t\t\t\tbalance = balance.Add(balance, posting.Amount)\n\t\t\t}", New: "\t\t\tif posting.Destination == address {\n\t\t\t\tbalance = balance.Add(balance, posting.Amount)\n\t\t\t}\n\t\t\tif posting.Source == address {\n\t\t\t\tbalance = balance.Sub(balance, posting.Amount)\n\t\t\t}", Expect: "none", Benign: true},
 		Mutant{Property: "C04", Name: "aggregated-balances-pit-on-effective-date", File: bal,
 			Old: "Apply(filterPIT(q.Options.Options.PIT, \"insertion_date\"))", New: "Apply(filterPIT(q.Options.Options.PIT, \"effective_date\"))", Expect: "R04d:(*internal/storage/ledgerstore.Store).GetAggregatedBalances$2:query:latest-move#1:cut-off"},
 		Mutant{Property: "C04", Name: "accounts-pit-column-unrelated-chain", File: acc,
